@@ -203,6 +203,7 @@ func c01Roundtrip(seqs []gts.Sequence, what string) (ok bool, sig, detail string
 	if err != nil {
 		return true, "", "" // not writable: outside "every record gts can write"
 	}
+	engine.Outcome(fmt.Sprintf("%x", engine.Hash(string(w1))))
 	back, errText, pan := c01Read(w1)
 	if pan != "" {
 		return false, "read-panic", what + ": reader panics on gts's own output: " + pan
